@@ -349,7 +349,7 @@ def make_backend(kind):
         return Backend(kind, MemoryFS(), ordered=True)
     if kind == "os":
         d = _tmpdir()
-        return Backend(kind, OSFS(d), cleanup=lambda: shutil.rmtree(d, ignore_errors=True))
+        return Backend(kind, OSFS(d), cleanup=lambda: rm_rf(d))
     if kind == "sub-mem":
         m = MemoryFS()
         m.makedirs("x/y")
@@ -360,7 +360,7 @@ def make_backend(kind):
         o = OSFS(d)
         o.makedirs("x/y")
         o.writebytes("outside", b"canary")
-        return Backend(kind, o.opendir("x/y"), cleanup=lambda: shutil.rmtree(d, ignore_errors=True), inner=[o])
+        return Backend(kind, o.opendir("x/y"), cleanup=lambda: rm_rf(d), inner=[o])
     if kind == "wrap-mem":
         from fs.wrapfs import WrapFS
 
@@ -452,8 +452,15 @@ def build_state(kind, snap):
     return b
 
 
+def rm_rf(path):
+    """robust removal (runaway copies can nest deeper than Python's recursion limit)"""
+    import subprocess
+
+    subprocess.run(["rm", "-rf", "--", path], check=False)
+
+
 def cleanup_scratch():
-    shutil.rmtree(SCRATCH_ROOT, ignore_errors=True)
+    rm_rf(SCRATCH_ROOT)
 
 
 # ----------------------------------------------------------------------------- stepping
